@@ -175,6 +175,8 @@ void do_release_next(Ctx &c) {
     e.state = 1;
     c.next_release++;
     sim::note(sim::PK_HARNESS, nullptr, 3);
+    // the consumer hands back a buffer it has written to: len is whatever it filled (0, part, or all of the capacity)
+    e.buf.len = (c.next_release % 3 == 0) ? 0 : (c.next_release % 3 == 1) ? e.cap : e.cap / 2;
     aws_ring_buffer_release(&c.ring, &e.buf);
     e.state = 2;
     c.released_returned++;
